@@ -1483,8 +1483,14 @@ impl<'a, B: Bindgen> Generator<'a, B> {
             .extend(self.stack.drain((self.stack.len() - operands_len)..));
         self.results.reserve(inst.results_len());
 
+        #[cfg(bytecodealliance_wit_bindgen_verif)]
+        let verif_operands = verif::operands_snapshot(&self.operands);
+
         self.bindgen
             .emit(self.resolve, inst, &mut self.operands, &mut self.results);
+
+        #[cfg(bytecodealliance_wit_bindgen_verif)]
+        verif::record(inst, verif_operands, &self.results);
 
         assert_eq!(
             self.results.len(),
@@ -2728,4 +2734,62 @@ pub fn flat_types(
     let mut storage = iter::repeat_n(WasmType::I32, max_params).collect::<Vec<_>>();
     let mut flat = FlatTypes::new(storage.as_mut_slice());
     resolve.push_flat(ty, &mut flat).then_some(flat.to_vec())
+}
+
+/// Verification hook (off by default): an optional thread-local sink that
+/// receives every instruction handed to a `Bindgen` together with the operand
+/// and result fragments, so that monitors can evaluate what real backends emit.
+#[cfg(bytecodealliance_wit_bindgen_verif)]
+pub mod verif {
+    use super::Instruction;
+    use std::cell::RefCell;
+    use std::fmt::Debug;
+
+    /// One emitted instruction: `Debug` form of the instruction, of each
+    /// operand and of each result.
+    #[derive(Clone, Debug)]
+    pub struct Emitted {
+        pub inst: String,
+        pub operands: Vec<String>,
+        pub results: Vec<String>,
+    }
+
+    thread_local! {
+        static SINK: RefCell<Option<Vec<Emitted>>> = const { RefCell::new(None) };
+    }
+
+    /// Start recording on this thread (discarding any earlier recording).
+    pub fn start() {
+        SINK.with(|s| *s.borrow_mut() = Some(Vec::new()));
+    }
+
+    /// Stop recording and return what was recorded.
+    pub fn take() -> Vec<Emitted> {
+        SINK.with(|s| s.borrow_mut().take()).unwrap_or_default()
+    }
+
+    pub(super) fn operands_snapshot<T: Debug>(operands: &[T]) -> Option<Vec<String>> {
+        SINK.with(|s| {
+            s.borrow()
+                .as_ref()
+                .map(|_| operands.iter().map(|o| format!("{o:?}")).collect())
+        })
+    }
+
+    pub(super) fn record<T: Debug>(
+        inst: &Instruction<'_>,
+        operands: Option<Vec<String>>,
+        results: &[T],
+    ) {
+        let Some(operands) = operands else { return };
+        SINK.with(|s| {
+            if let Some(sink) = s.borrow_mut().as_mut() {
+                sink.push(Emitted {
+                    inst: format!("{inst:?}"),
+                    operands,
+                    results: results.iter().map(|o| format!("{o:?}")).collect(),
+                });
+            }
+        });
+    }
 }
